@@ -203,6 +203,19 @@ static void send_rule(unsigned rule, uint64_t me, double now, unsigned type, con
 			}
 			break;
 		}
+		case VR_T0_TWICE: {
+			/* two events for the neighbour at the current timestamp (timestamp 0 when used as init rule), lower type,
+			 * distinct payloads; plus a self event one tick later that keeps this LP busy */
+			uint64_t a = h, b = h ^ 0x55;
+			unsigned lt = type > 0 && type <= VM_NTYPES ? 0 : 0;
+			if(type > 0) {
+				vm_env->schedule(nb, now, lt, &a, 8);
+				vm_env->schedule(nb, now, lt, &b, 8);
+			}
+			if(now + 1 <= VM.horizon)
+				vm_env->schedule(me, now + 1, type, NULL, 0);
+			break;
+		}
 		case VR_FAN2:
 			if(now + 1 <= VM.horizon) {
 				vm_env->schedule(nb, now + 1, (type + 1) % VM_NTYPES, &h, 8);
